@@ -12,7 +12,7 @@ CONSTANTS
   Ports = {"", "873"}
   Mods = {"m", "..", ""}
   Segs = {"a"}
-  SegsAll = {"a", "A", ".", "..", "%2e%2e", "%2F", "a b", "", "x200"}
+  SegsAll = {"a", "A", ".", "..", "%2e%2e", "%2F", "a b", "", "x200", "x300"}
   NearSpread = 5
   MaxSegs = 2
 INVARIANT Emit
